@@ -833,15 +833,19 @@ class CompositeEnvelope:
         ]
 
         ce_container = None
+        appended_containers: List[CompositeEnvelopeContainer] = []
         for ce in composite_envelopes:
             assert isinstance(
                 ce, CompositeEnvelope
             ), "ce should be CompositeEnvelope type"
             state_objs.extend(ce.state_objs)
+            container = CompositeEnvelope._containers[ce.uid]
             if ce_container is None:
-                ce_container = CompositeEnvelope._containers[ce.uid]
-            else:
-                ce_container.append_states(CompositeEnvelope._containers[ce.uid])
+                ce_container = container
+            elif not any(container is c for c in appended_containers):
+                # Two handles of one container must not append it twice
+                ce_container.append_states(container)
+            appended_containers.append(container)
             ce.uid = self.uid
         # Handles which were not passed, but share a merged container follow it
         for handle in merged_handles:
